@@ -449,8 +449,11 @@ def oracle(H, case, res, own, frames):
             errs.append((None, f"frame {k}: config index {f['idx']} / vel_rev {f['vel_rev']} (requested {rev}) / files {obs['trajfiles']}"))
         if not close(f["order"], f["recomputed"], tol):
             cls = "L3" if (eng == "gromacs" and f["vel_rev"] and f["order"] == f.get("recomputed_flip")) else None
+            hint = (" — signature of lead L2 (frames arriving in one poll paired with another frame's box, cf. "
+                    "proposed_fixes/C12_lammps_box_pairing.diff, theorem C12_lammps_pop_last_refuted)"
+                    if eng == "lammps" and case.get("box_rate") and f["idx"] == k else "")
             errs.append((cls, f"frame {k}: stored order {f['order']!r} != {f['recomputed']!r} recomputed from the frame it references "
-                              f"({f['file']}[{f['idx']}], vel_rev={f['vel_rev']})"))
+                              f"({f['file']}[{f['idx']}], vel_rev={f['vel_rev']}){hint}"))
         if k < len(frames):
             p, v, b = expected_state(H, case, k, frames)
             if not (same_arrays(f["pos"], p, tols) and same_arrays(f["vel"], v, tols)
